@@ -32,6 +32,8 @@ type Req struct {
 	F    []bool   `json:"f,omitempty"` // flags
 	Tags []string `json:"tags,omitempty"`
 	Obs  *Obs     `json:"obs,omitempty"` // what was observed when the case was generated (information only)
+	// StatGen: coarser generator label for the input-distribution statistics (default: Gen)
+	StatGen string `json:"-"`
 }
 
 // Obs is what one execution showed.
@@ -120,6 +122,14 @@ func execute(r *Req) (o Obs) {
 	runtime.ReadMemStats(&m1)
 	o.Alloc = m1.TotalAlloc - m0.TotalAlloc
 	o.Ms = float64(el.Microseconds()) / 1000
+	// entries that run their own guards around several calls (synctree) report a hang / over-allocation /
+	// panic of one of those calls here
+	if fc := o.X["force_cls"]; fc != "" && o.Cls != "panic" {
+		o.Cls, o.Err = fc, o.X["force_err"]
+		delete(o.X, "force_cls")
+		delete(o.X, "force_err")
+		return
+	}
 	if o.Cls != "panic" {
 		if o.Alloc > e.allocC*inputLen(r)+e.allocK {
 			o.Cls = "alloc"
@@ -157,6 +167,10 @@ func observe(r *Req) Obs {
 	var o Obs
 	if err := json.Unmarshal(resp, &o); err != nil {
 		return Obs{Cls: "panic", Err: "bad child response: " + string(resp)}
+	}
+	if o.Cls == "hang" {
+		// a goroutine of the case may still be stuck (or spinning) in the child: start a fresh one
+		child.Close()
 	}
 	return o
 }
@@ -255,7 +269,11 @@ func (h *harness) emit(r *Req) {
 	idx := h.w.Add(term, r, key, true)
 	h.w.Stat("entry/" + r.Kind)
 	h.w.Stat("class/" + r.Kind + "/" + o.Cls)
-	h.w.Stat("gen/" + r.Kind + "/" + r.Gen)
+	if r.StatGen != "" {
+		h.w.Stat("gen/" + r.Kind + "/" + r.StatGen)
+	} else {
+		h.w.Stat("gen/" + r.Kind + "/" + r.Gen)
+	}
 	if o.Cls == "panic" || o.Cls == "hang" || o.Cls == "alloc" {
 		// also visible to the Coq side as spec_ok = false (code 2); the direct record carries the message
 		tag := "C11-" + o.Cls
@@ -302,6 +320,7 @@ func main() {
 	opts := vlib.ParseFlags()
 	h := &harness{w: vlib.NewWriter(opts.Out, "C11_run", 250), perKind: map[string]int{}}
 	defer child.Close()
+	defer stParentSetup()()
 
 	if opts.Replay != "" {
 		for _, raw := range vlib.ReadReplay(opts.Replay) {
